@@ -117,9 +117,13 @@ def rmask(rng, n, kind=None):
 
 
 def rframes(rng, mask, width):
+    """present frames get random samples; now and then a present frame is exactly at the origin (+0 / -0)"""
+    def z():
+        return rng.choice([0.0, 0.0, -0.0])
     if width == 1:
-        return [rf32(rng) if m else None for m in mask]
-    return [[rf32(rng) for _ in range(width)] if m else None for m in mask]
+        return [(z() if rng.random() < 0.04 else rf32(rng)) if m else None for m in mask]
+    return [([z() for _ in range(width)] if rng.random() < 0.04 else [rf32(rng) for _ in range(width)]) if m else None
+            for m in mask]
 
 
 def rnframes(rng, big=False):
@@ -166,7 +170,7 @@ def gen_spec(rng: random.Random, kind: str, big: bool = False, fmt=None):
         s = {"t": kind, "format": fm, "nFrames": n, "frequency": ri32(rng), "startTime": rf32(rng),
              "volume": [rf32(rng) for _ in range(3)], "rot": [rf32(rng) for _ in range(9)],
              "trans": [rf32(rng) for _ in range(3)], "flag": rng.choice([0, 1]),
-             "tracks": [{"label": rlabel(rng), "frames": rframes(rng, rmask(rng, n), 3)} for _ in range(nt)]}
+             "tracks": _dup_labels(rng, [{"label": rlabel(rng), "frames": rframes(rng, rmask(rng, n), 3)} for _ in range(nt)])}
         if fm == 1:
             nl = rng.choice([0, 0, 1, 2, 3, 6, 31, 32, 33, 40, 100])
             hi = 2 ** 32 - 1
@@ -179,14 +183,14 @@ def gen_spec(rng: random.Random, kind: str, big: bool = False, fmt=None):
         nt = rnitems(rng, 5)
         return {"t": kind, "format": 1, "frequency": ri32(rng), "startTime": rf32(rng), "nSamples": n,
                 "map": rchannels(rng, nt),
-                "tracks": [{"label": rlabel(rng), "frames": rframes(rng, rmask(rng, n), 1)} for _ in range(nt)]}
+                "tracks": _dup_labels(rng, [{"label": rlabel(rng), "frames": rframes(rng, rmask(rng, n), 1)} for _ in range(nt)])}
     if kind == "force3D":
         n = rnframes(rng, False) if not big else min(rnframes(rng, big), 3000)
         nt = rnitems(rng, 4)
         return {"t": kind, "format": 1, "frequency": ri32(rng), "startTime": rf32(rng), "nFrames": n,
                 "volume": [rf32(rng) for _ in range(3)], "rot": [rf32(rng) for _ in range(9)],
                 "trans": [rf32(rng) for _ in range(3)],
-                "tracks": [{"label": rlabel(rng), "frames": rframes(rng, rmask(rng, n), 9)} for _ in range(nt)]}
+                "tracks": _dup_labels(rng, [{"label": rlabel(rng), "frames": rframes(rng, rmask(rng, n), 9)} for _ in range(nt)])}
     if kind == "platData":
         n = rnframes(rng, big)
         nt = rnitems(rng, 4)
@@ -210,6 +214,8 @@ def gen_spec(rng: random.Random, kind: str, big: bool = False, fmt=None):
                     row.append(None)
                 else:
                     k = rng.choice([1, 1, 2, 3, 7])
+                    if rng.random() < 0.004:     # the 16-bit point count allows up to 65535 points in one cell
+                        k = rng.choice([8191, 8192, 8193, 16384, 40000, 65535])
                     row.append([[rf32(rng), rf32(rng)] for _ in range(k)])
             cells.append(row)
         return {"t": kind, "format": 2, "nCams": nc, "nFrames": nf, "frequency": ri32(rng),
@@ -245,9 +251,20 @@ def gen_spec(rng: random.Random, kind: str, big: bool = False, fmt=None):
         for _ in range(ne):
             ty = rng.choice([0, 1])
             nv = rng.choice([0, 1]) if ty == 0 else rng.choice([0, 1, 2, 3, 6])
-            evs.append({"label": rlabel(rng), "type": ty, "values": [rf32(rng) for _ in range(nv)]})
+            vals = [rf32(rng) for _ in range(nv)]
+            if nv >= 2 and rng.random() < 0.3:   # the same instant twice, not in ascending order
+                vals[rng.randrange(nv)] = vals[rng.randrange(nv)]
+            evs.append({"label": rlabel(rng), "type": ty, "values": vals})
         return {"t": kind, "format": 1, "startTime": rf32(rng), "events": evs}
     raise KeyError(kind)
+
+
+def _dup_labels(rng, items):
+    """now and then two items carry the same label (allowed: lookup by label returns the first)"""
+    if len(items) >= 2 and rng.random() < 0.15:
+        i, j = rng.sample(range(len(items)), 2)
+        items[j]["label"] = items[i]["label"]
+    return items
 
 
 def gen_variant(rng: random.Random, kind: str):
